@@ -57,6 +57,17 @@ def run_one(builder, findings, unit_files, m):
         if fails:
             return {'mutant': name, 'status': 'killed', 'by': sorted(set(f.name() for f in fails))[:4],
                     'props': sorted(set(p for f in fails for p in f.props()))}
+        # the unit's quick-tier Kani jobs (bounded stand-ins and std-op discharges) are part of what decides it
+        from . import thorough as th
+        for job in u.bounded:
+            if not job.get('quick'):
+                continue
+            r = th.run_kani_job(u, job, wd)
+            if r['status'] == 'failed':
+                return {'mutant': name, 'status': 'killed', 'by': ['%s:kani:%s:%s' % (u.uid, job['name'], h) for h in r['summary']['failed'][:4]],
+                        'props': job.get('props', u.props)}
+            if r['status'] == 'undecided':
+                return {'mutant': name, 'status': 'undecided', 'detail': r['detail'][:300]}
         return {'mutant': name, 'status': 'survived'}
     finally:
         shutil.rmtree(d, ignore_errors=True)
